@@ -197,7 +197,7 @@ func govcOracle(recs []govcRec, alMax, eoMax int) (bad string) {
 	var t testing.T
 	p := govcStore(&t, recs)
 	cfg := &Config{Dialer: func(context.Context) (net.Conn, error) { return nil, errors.New("no dial") }, AtLeastOnceMax: alMax, ExactlyOnceMax: eoMax}
-	c, _, err := AdoptSession(p, cfg)
+	c, warn, err := AdoptSession(p, cfg)
 	norm := func(n int) int {
 		if n < 0 || n > 0x3fff {
 			return 0x4000
@@ -239,6 +239,13 @@ func govcOracle(recs []govcRec, alMax, eoMax int) (bad string) {
 			return fmt.Sprintf("exactly-once window [%d, %d) has no PUBLISH record for %d", c.Received, eo.acceptN, s)
 		}
 	}
+	// a store as a run leaves it (every record intact, each key list contiguous in storage order, the
+	// PUBLISH run continuing the PUBREL run) is adopted whole and without warnings (C02)
+	if clean, nAL, nEO := govcClean(recs); clean {
+		if len(warn) != 0 || len(c.atLeastOnce.queue) != nAL || len(c.exactlyOnce.queue) != nEO {
+			return fmt.Sprintf("a clean store is not adopted whole: %d warnings %v, %d of %d at-least-once and %d of %d exactly-once transfers pending", len(warn), warn, len(c.atLeastOnce.queue), nAL, len(c.exactlyOnce.queue), nEO)
+		}
+	}
 	rp, ok := c.persistence.(*ruggedPersistence)
 	if !ok {
 		return "adopted client without ruggedPersistence"
@@ -251,15 +258,57 @@ func govcOracle(recs []govcRec, alMax, eoMax int) (bad string) {
 	return ""
 }
 
+// govcClean: whether the records, in storage order, form contiguous runs per key list, with the
+// exactly-once PUBLISH run continuing the PUBREL run; and how many of each level there are.
+func govcClean(recs []govcRec) (clean bool, nAL, nEO int) {
+	byseq := append([]govcRec{}, recs...)
+	for i := range byseq {
+		for j := i + 1; j < len(byseq); j++ {
+			if byseq[j].seq < byseq[i].seq {
+				byseq[i], byseq[j] = byseq[j], byseq[i]
+			}
+		}
+	}
+	var al, pub, rel []uint
+	for _, r := range byseq {
+		if r.damaged {
+			return false, 0, 0
+		}
+		switch {
+		case r.key&^publishIDMask == atLeastOnceIDSpace:
+			al = append(al, r.key)
+		case r.typ == typePUBREL:
+			rel = append(rel, r.key)
+		default:
+			pub = append(pub, r.key)
+		}
+	}
+	run := func(l []uint) bool {
+		for i := 1; i < len(l); i++ {
+			if l[i]&publishIDMask != (l[i-1]+1)&publishIDMask {
+				return false
+			}
+		}
+		return true
+	}
+	if !run(al) || !run(pub) || !run(rel) {
+		return false, 0, 0
+	}
+	if len(pub) > 0 && len(rel) > 0 && pub[0]&publishIDMask != (rel[len(rel)-1]+1)&publishIDMask {
+		return false, 0, 0
+	}
+	return true, len(al), len(pub) + len(rel)
+}
+
 // Bounded search on the real AdoptSession: stores of up to 4 records drawn from 9 (key, type) slots around the
-// identifier wrap of both key spaces, storage order ascending or descending, at most one record damaged,
+// identifier wrap of both key spaces (listed so that ascending storage order makes contiguous picks clean stores, wrap included), storage order ascending or descending, at most one record damaged,
 // limits in {-1, 0, 1, 3, 20000}. (The solver model of a store is not replayed: it lives in ghost state.)
 func TestGovcReplay(t *testing.T) {
 	govcLoad(t)
 	slots := []govcRec{
-		{key: 0x8000, typ: typePUBLISH}, {key: 0x8001, typ: typePUBLISH}, {key: 0xbfff, typ: typePUBLISH},
-		{key: 0xc000, typ: typePUBREL}, {key: 0xc001, typ: typePUBREL}, {key: 0xc001, typ: typePUBLISH},
-		{key: 0xc002, typ: typePUBLISH}, {key: 0xc003, typ: typePUBLISH}, {key: 0xffff, typ: typePUBREL},
+		{key: 0xbfff, typ: typePUBLISH}, {key: 0x8000, typ: typePUBLISH}, {key: 0x8001, typ: typePUBLISH},
+		{key: 0xffff, typ: typePUBREL}, {key: 0xc000, typ: typePUBREL}, {key: 0xc001, typ: typePUBREL},
+		{key: 0xc001, typ: typePUBLISH}, {key: 0xc002, typ: typePUBLISH}, {key: 0xc003, typ: typePUBLISH},
 	}
 	limits := []int{-1, 0, 1, 3, 20000}
 	tried := 0
